@@ -392,7 +392,7 @@ def run_pool(tier, seed, names=None, force=False):
                 base = os.path.join(cdir, "%s.%s" % (n, sname))
                 with open(base + ".script", "w") as f:
                     f.write(text)
-                rc, hout = vlib.run_harness(exe, text, base + ".raw.ndjson", timeout=300)
+                rc, hout = vlib.run_harness(exe, text, base + ".raw.ndjson", timeout=25 if tier == "quick" else 150)   # a hang ends with a "crash" event (SIGALRM)
                 nexec = traceprep.write_for_tlc(base + ".raw.ndjson", base + ".tlc.ndjson")
                 with open(base + ".tlc.ndjson") as f:
                     data = f.read()
